@@ -122,7 +122,7 @@ def build(name, groups, harness_srcs, san="asan", extra_cflags=(), extra_ldflags
 # TLC
 
 def tlc(spec, cfg, workers=8, dump=None, simulate=None, depth=None, timeout=900, metadir=None, extra=(),
-        env=None, heap="8g", coverage=False, cwd=None, seed=None, deadlock=None):
+        env=None, heap="8g", coverage=False, cwd=None, seed=None, deadlock=None, simfile=None):
     """Run TLC; returns dict(rc, out, generated, distinct, depth, wall, violated, coverage)."""
     md = metadir or rundir("tlcmeta")
     cmd = ["java", "-XX:+UseParallelGC", "-Xmx" + heap, "-cp", TLA_JAR + ":/opt/veriftools/tla/CommunityModules-deps.jar",
@@ -133,7 +133,7 @@ def tlc(spec, cfg, workers=8, dump=None, simulate=None, depth=None, timeout=900,
     if dump:
         cmd += ["-dump", "dot,actionlabels", dump]
     if simulate:
-        cmd += ["-simulate", "num=%d" % simulate]
+        cmd += ["-simulate", ("file=%s," % simfile if simfile else "") + "num=%d" % simulate]
         if depth:
             cmd += ["-depth", str(depth)]
     if seed is not None:
@@ -385,6 +385,57 @@ def _argtok(a):
 
 def ints(xs):
     return ",".join(str(int(x)) if not isinstance(x, bool) else ("1" if x else "0") for x in xs) or "_"
+
+
+# ------------------------------------------------------------------------------------------
+# Behaviours sampled by TLC's simulation mode (configurations too large to enumerate)
+
+_simhdr = re.compile(r"^\\\* <(.*) line \d+, col \d+ to line \d+, col \d+ of module \w+>\s*$")
+
+
+def parse_sim_traces(paths, max_states=600000):
+    """TLC '-simulate file=prefix' writes one TLA+ module per behaviour: '\\* <Action(args) line ..>' then 'STATE_n ==' and the
+    state.  Returns (states {id: dict}, edges [(src, dst, label)], inits [id], programs [[(label, state reached), ...]]); equal
+    states are merged."""
+    states, edges, inits, progs = {}, [], [], []
+    ids = {}
+    seen_edges = set()
+    for path in paths:
+        txt = open(path).read()
+        chunks = re.split(r"^STATE_\d+ ==\s*$", txt, flags=re.M)
+        hdrs = []
+        # the header of state k is the last comment line of chunk k-1
+        for c in chunks[:-1]:
+            h = [l for l in c.splitlines() if l.startswith("\\* <")]
+            hdrs.append(h[-1] if h else "")
+        prev = None
+        prog = []
+        for k, body in enumerate(chunks[1:]):
+            body = body.split("\n\\* <")[0]
+            body = body.split("\n====")[0].strip()
+            sid = ids.get(body)
+            if sid is None:
+                sid = str(len(ids))
+                ids[body] = sid
+                states[sid] = parse_state_label(body)
+                if len(states) > max_states:
+                    raise Broken("too many sampled states")
+            m = _simhdr.match(hdrs[k].strip())
+            lab = m.group(1) if m else ""
+            if k == 0:
+                if sid not in inits:
+                    inits.append(sid)
+            else:
+                name, args = parse_action_label(lab)
+                canon = "%s(%s)" % (name, ",".join(_argtok(a) for a in args))
+                if (prev, canon) not in seen_edges:
+                    seen_edges.add((prev, canon))
+                    edges.append((prev, sid, lab))
+                prog.append((canon, sid))
+            prev = sid
+        if prog:
+            progs.append(prog)
+    return states, edges, inits, progs
 
 
 # ------------------------------------------------------------------------------------------
